@@ -38,11 +38,11 @@ Fixpoint lookup_dir (n : str) (l : list (str * (ometa * files))) : option (ometa
   end.
 
 (* one scope: the directories present below its base, by name *)
-Definition layer_of (sha_hex : str) (abs_meta : bool) (id : str)
+Definition layer_of (sha_hex : str) (id : str)
            (present : list (str * (ometa * files))) : layer :=
   let name := overlay_dir_name (fun _ => sha_hex) (fun n => mem_str n (map fst present)) id in
   match lookup_dir name present with
-  | Some (m, fs) => mkLayer true abs_meta m fs
+  | Some (m, fs) => mkLayer true m fs
   | None => no_layer
   end.
 
@@ -56,11 +56,11 @@ Definition tree_agrees (a b : files) : bool :=
   && forallb (fun e => opt_eqb content_eqb (get (fst e) a) (get (fst e) b)) b.
 
 Definition compose_case :=
-  (str * str * bool * files * list (list (str * (ometa * files))) * list (str * str * option str) * obs)%type.
+  (str * str * files * list (list (str * (ometa * files))) * list (str * str * option str) * obs)%type.
 
 Definition check_compose (c : compose_case) : bool :=
-  let '(id, sha_hex, abs_meta, up, scopes, tab, o) := c in
-  match compose (ap_of tab) up (map (layer_of sha_hex abs_meta id) scopes), o with
+  let '(id, sha_hex, up, scopes, tab, o) := c in
+  match compose (ap_of tab) up (map (layer_of sha_hex id) scopes), o with
   | Ok out, OOk t => tree_agrees out t
   | Err e, OErr code => err_code e =? code
   | _, _ => false
@@ -68,5 +68,5 @@ Definition check_compose (c : compose_case) : bool :=
 
 (* diagnostics: what the model answers (used by the harness when a case disagrees) *)
 Definition model_compose (c : compose_case) : res files :=
-  let '(id, sha_hex, abs_meta, up, scopes, tab, o) := c in
-  compose (ap_of tab) up (map (layer_of sha_hex abs_meta id) scopes).
+  let '(id, sha_hex, up, scopes, tab, o) := c in
+  compose (ap_of tab) up (map (layer_of sha_hex id) scopes).
